@@ -120,8 +120,22 @@ def check(ctx):
         r = flow.strip(return_expr(van))
         ok = False
         if r[0] == "call" and (flow.short(r[1]).endswith(("PartialEq::eq", "ConstantTimeEq::ct_eq"))):
-            ps = sorted(str(param_name(a)) for a in r[3])
-            ok = ps == ["actual", "expected"] and all(field_path(a)[1] == [] for a in r[3])
+            # whole-value views (`as_slice()`, `&x[..]`, `as_ref()`) are the operand itself; a sub-range is not
+            def whole(a):
+                for _ in range(6):
+                    a = flow.strip(a, extra=("as_slice", "as_mut_slice", "as_ref", "borrow"))
+                    if a[0] == "call" and flow.short(a[1]).endswith("Index::index") and len(a[3]) == 2 \
+                            and flow.strip(a[3][1])[0] == "agg" and flow.strip(a[3][1])[1].endswith("RangeFull"):
+                        a = a[3][0]
+                        continue
+                    if a[0] == "cast":
+                        a = a[2]
+                        continue
+                    break
+                return a
+            ops = [whole(a) for a in r[3]]
+            ps = sorted(str(param_name(a)) for a in ops)
+            ok = ps == ["actual", "expected"] and all(field_path(a)[1] == [] for a in ops)
         ctx.check(ok, RC, "C01/token-compare/whole-operands", vb.loc,
                   reason="verify_token returns %s; expected a whole-operand equality of (expected, actual)" % render(r, maxdepth=4),
                   detail="verify_token = eq(expected, actual) over whole operands")
